@@ -140,9 +140,17 @@ func C09(run *report.Run) {
 	run.Rule = ruleSingle + "; oracle: every persisted version, decoded by the reference codec, satisfies the shape invariants relative to the recorded height"
 }
 
+func c08Configs(thorough bool) []*world.Config {
+	cs := StructConfigs(thorough, []string{"none", "big"}, bothFormats)
+	nl := world.UintCfg(2, urange(1, 5), 1, ref.FormatMarshaler, "none")
+	nl.MarshalNL = true
+	nl.Name = "json.Encoder-marshaler/" + nl.Name
+	return append(cs, nl)
+}
+
 func C08(run *report.Run) {
 	var total, distinct int64
-	runSingle(run, "C08", StructConfigs(run.Thorough(), []string{"none", "big"}, bothFormats), func(*world.Config) explore.Monitor {
+	runSingle(run, "C08", c08Configs(run.Thorough()), func(*world.Config) explore.Monitor {
 		m := newC08()
 		defer func() {}()
 		c08all = append(c08all, m)
